@@ -563,7 +563,7 @@ impl Check for C11 {
                 });
                 let (mut spk, mut ss, mut wit): (Vec<u8>, Vec<u8>, Vec<Vec<u8>>) = (vec![], vec![], vec![]);
                 if let (Ok(lib), Ok(sc)) = (glue::desc_via_ctor(&d, glue::Level::Insane, true), d.scripts()) {
-                    let mut w = World { keys: Default::default(), preimages: keys::u().preimages.iter().copied().collect(), lock_time: 0, sequence: 0xffff_fffe };
+                    let mut w = World { keys: Default::default(), preimages: keys::u().preimages.iter().copied().collect(), lock_time: 0, sequence: 0xffff_fffe, tx_version: 2 };
                     for k in d.all_keys() {
                         if let Ok(kb) = crate::mirror::encode::key_bytes(&k, d.ctx()) {
                             if let Some(x) = keys::xonly_of(&kb) {
